@@ -38,8 +38,12 @@ META = {
             "`#define private public` in its own translation unit only), World interpreter, the recording/preloading "
             "of VBK header hashes between the un-instrumented and the sanitizer run (setProgpowHeaderCache; a miss is "
             "a machinery error, never a verdict). The pool model is single-typed (one payload type, context = one "
-            "parent block) and is NOT run against the implementation step by step; the pool-level tie is the direct "
-            "oracle. Memory safety is observed, not proved.",
+            "parent block, one carried block); it IS stepped against the implementation (one instance per type, the "
+            "harness-reported verdicts - contextual check, BTC context, too old, blocks present in the stable/temporary "
+            "VBK tree - as inputs; compared: connected ATVs/VTBs and the three in-flight views in view order). Not "
+            "compared: connected VBK blocks (relation emptiness rules), VTB sets in steps where a VTB lacks BTC context; "
+            "a history is dropped from the comparison once a connected payload's block is in neither tree (reorg "
+            "after the temporary copy was cleaned up). Memory safety is observed, not proved.",
     "technique": "Coq proof (invariants over op sequences) + extraction-based differential correspondence (exhaustive) "
                  "+ direct oracle on generated histories under ASan/UBSan",
 }
@@ -240,6 +244,17 @@ def run(ctx):
     done, alines = (0, 0)
     if not ctx.violations:
         done, alines = sanitizer_pass(ctx, asan, scripts, hashfile, runner, abudget)
+    # the extracted pool model stepped against the implementation on the same histories
+    if not ctx.violations:
+        okm, model, mlog = vlib.build_model("Mempool")
+        if not okm:
+            ctx.broken.append("model-build(Mempool): " + mlog[-300:])
+        else:
+            from props import _poolcorr
+            pc = _poolcorr.run(ctx, rel, model, scripts, 4000 if ctx.tier == "quick" else 60000)
+            ctx.cov["pool_model"] = pc
+            ctx.cov["disagreements_checked"] = ctx.cov.get("disagreements_checked", 0) + pc["steps"]
+            ctx.cov["traces_validated_against_impl"] = ctx.cov.get("traces_validated_against_impl", 0) + pc["agree"]
     tot["sanitizer_histories"] = done
     tot["sanitizer_lines"] = alines
     ctx.cov["evaluations"] = ctx.cov.get("evaluations", 0) + tot["lines"] + alines + nc
